@@ -45,16 +45,37 @@ func call(scope *slip.Scope, src string) (bool, string) {
 
 // exclusions of open findings that concern the predicates; each is a predicate over the case.
 func predExcluded(objs ...Obj) string {
-	if h.ExclOn("eq-through-float") {
-		for i := range objs {
-			for j := i + 1; j < len(objs); j++ {
-				if lossy(objs[i], objs[j]) {
-					return "eq-through-float"
-				}
+	for i := range objs {
+		for j := i + 1; j < len(objs); j++ {
+			if h.ExclOn("eq-through-float") && lossy(objs[i], objs[j]) {
+				return "eq-through-float"
+			}
+			if h.ExclOn("ratio-bignum-eq") && (ratioBig(objs[i], objs[j]) || ratioBig(objs[j], objs[i])) {
+				return "ratio-bignum-eq"
 			}
 		}
 	}
 	return ""
+}
+
+// ratioBig: a ratio inside x and an integer outside int64 inside y (NormalizeNumber turns such a
+// pair into long-floats, in one argument order only).
+func ratioBig(x, y Obj) bool {
+	hasRat := false
+	for _, a := range leaves(x, nil) {
+		if a.K == "rat" {
+			hasRat = true
+		}
+	}
+	if !hasRat {
+		return false
+	}
+	for _, b := range leaves(y, nil) {
+		if b.K == "int" && pointerish(b) {
+			return true
+		}
+	}
+	return false
 }
 
 func runPair(c PCase) *h.Result {
@@ -258,10 +279,17 @@ func TestC16(t *testing.T) {
 	h.Assume("slip's exported Go constructors for numbers, strings, symbols, characters, lists and vectors, Scope.Let, and reading/evaluating a call on variables")
 	h.Assume("for the hash-table model: slip's eql predicate is the documented table test (make-hash-table: :test is ignored, eql always used)")
 
+	// all witnesses of known findings first: an exclusion tag concerns several sub-properties
+	if h.C.ReplayIn == "" {
+		h.RunProp(t, pairs, 0)
+		h.RunProp(t, triples, 0)
+		witnessesFirst(t)
+	}
+
 	h.RunProp(t, pairsAll, 0)
-	h.RunProp(t, pairs, h.N(20000, 400000))
+	h.RunProp(t, pairs, h.N(30000, 400000))
 	h.RunProp(t, triplesAll, 0)
-	h.RunProp(t, triples, h.N(20000, 400000))
+	h.RunProp(t, triples, h.N(30000, 400000))
 	testHash(t)
 	testTypes(t)
 
